@@ -231,6 +231,26 @@ def select_rule(P, chk):
             oks = bool(rs0) and any(r.kind == "call" and r.site == bb for r in rs0) and \
                 all((r.kind == "call" and r.site == bb) or (r.kind == "const" and str(r.name).replace("const ", "") == "false") for r in rs0) or \
                 (bool(trues) and all(any(ct is t and lab is True for cn, lab, ct in q.guard_calls(x, s)) for s in trues))
+        if not oks and str(x.local_ty(0)) == "bool":
+            # a boolean predicate with the decision spread over temporaries: path by path, `true` only after contains() held
+            try:
+                ps = mir.enumerate_paths(x, limit=2000)
+                n_true = 0
+                good = True
+                for p_ in ps:
+                    sh = p_.shape
+                    val = None
+                    if sh and sh[0] == "assign" and sh[2].get("k") == "use" and sh[2]["op"].get("k") == "const" and "int" in sh[2]["op"]:
+                        val = bool(sh[2]["op"]["int"])
+                    held = any(a.kind == "call" and a.subject[2] == bb and tuple(a.label) == (True,) for a in p_.atoms)
+                    if val is True:
+                        n_true += 1
+                        good = good and held
+                    elif val is None and not (sh and sh[0] == "call" and sh[1] == bb):
+                        good = False
+                oks = good and (n_true > 0 or any(sh_ and sh_[0] == "call" and sh_[1] == bb for sh_ in [p_.shape for p_ in ps]))
+            except mir.TooManyPaths:
+                pass
         ok = okh and okn and oks
         detail = "file path is the haystack=%s, document path the needle=%s, kept only when contained=%s" % (okh, okn, oks)
     chk.require(ok, R_SEL, "select_impl|document kept iff file path contains its path", b.loc(), detail, "fp.contains(entry path)")
